@@ -55,6 +55,8 @@ def execute_case(prop, case, want_trace=False):
             # the library killed the calling process (known C04 finding: RemoteWorker.terminate(force=True) SIGTERMs
             # os.getpid() when its frontend thread is slow): only C04 judges this; elsewhere the run is inconclusive
             outcome = 'caller-killed'
+            k = getattr(sim.root_proc, 'last_signal_from', None) or {}
+            sim.probe('caller-killed-by:' + ('itself' if k.get('same_proc') else str(k.get('tag') or k.get('proc') or 'unknown')))
         res['outcome'] = outcome
         if outcome == 'harness-error':
             res['harness_error'] = sim.outcome_info
